@@ -308,6 +308,8 @@ class Report:
             harness_fail = True
             print("INCONCLUSIVE property=%s %d of %d cases inconclusive, e.g. %s" %
                   (self.prop, inconc, self.evaluations, self.inconclusive[:3]))
+        elif inconc:
+            print("NOTE property=%s %d inconclusive case(s) below the cap, e.g. %s" % (self.prop, inconc, str(self.inconclusive[:2])[:700]))
         if missing:
             harness_fail = True
             print("INCONCLUSIVE property=%s monitors observed nothing: %s" % (self.prop, missing))
